@@ -1,7 +1,7 @@
 (** C18: theorems about the model C18_Model.v.  [Theorem]/[Example] = property statements (listed in
     Props/Properties_C18.v), [Fact] = helpers. *)
 From Coq Require Import List Arith Bool PeanoNat Lia.
-Require Import C18_Model C18_Basics.
+Require Import C18_Model C18_Basics C18_Spec C18_Refine C18_Refine2 C18_Refine3 C18_Values.
 Import ListNotations.
 
 (** the stage an operation invalidates, if it is a "variable change" *)
@@ -72,3 +72,145 @@ Proof. intros H. destruct (step_inval_shape cf s o g H) as [T SH]. cbv zeta.
   - intros i Hi Hg. destruct (shape_sub _ _ i SH) as [_ ->]. destruct (J i Hi) as [_ ->].
     unfold restored_ver. replace (g-1) with 0 by lia. simpl.
     destruct (s_stage (get_sub i s)); auto. Qed.
+
+(* ================================================================= refinement of the specification *)
+(** For every state satisfying the (executable) invariants and every sequence of run-time operations none of which is
+    a deviation event ([legal_run]: every op is a run-time op -- advance, upd*, setDiscreteVariable of a variable
+    invalidating Time or later, mark / unmark, auto-update, getCacheEntry, invalidateAll(>= Time) -- marks happen at or
+    above the depends-on stage, and, unless the repair is in, auto-update swaps no variable that has explicit dependents):
+    thrown-or-not, all stages and the validity of every cache entry after every operation are exactly those of the
+    specification, i.e. an entry reads valid iff stage >= computedBy, or stage >= dependsOn and it was marked after the
+    last change of its depends-on stage and of every transitive prerequisite.
+    Partial: allocation, operations backing the state up below Instance, and copies are not covered by this theorem
+    (they are covered by the correspondence run and by the invariant check of every reached state). *)
+Theorem valid_iff_spec_partial cf s l : wf_check s = true -> dyn_check s = true -> legal_run cf s l = true ->
+  trace cf s l = gtrace (abs s) l /\ obs (run cf s l) = gobs (grun (abs s) l) /\
+  forall k, isUpToDate (run cf s l) k = gvalid (grun (abs s) l) k.
+Proof. intros W D L. destruct (run_refines cf l s (wf_check_sound s W) (dyn_check_sound s D) L) as (T & A & _ & _).
+  split; [|split]; auto.
+  - rewrite obs_abs, A; reflexivity.
+  - intros k. rewrite <- A. symmetry. apply gvalid_abs. Qed.
+
+(** the single-step form, with the invariants as propositions: they are preserved, so the theorem iterates *)
+Theorem step_refines_spec cf s o : WF s -> Dyn s -> runtime s o = true -> legal cf s o = true ->
+  abs (fst (step cf s o)) = fst (gstep (abs s) o) /\ snd (step cf s o) = snd (gstep (abs s) o) /\ WF (fst (step cf s o)) /\ Dyn (fst (step cf s o)).
+Proof. exact (step_refines cf s o). Qed.
+
+Definition cfg_now := mkCfg false false.
+Definition cfg_fixed := mkCfg true true.
+Definition adv (ss a b:nat) : list op := flat_map (fun g => [AdvSub ss g; AdvSys g]) (seq a (S b - a)).
+
+(* non-vacuity: two subsystems, q/u/z, a chain q <- A <- B across subsystems, a discrete variable with a dependent, an
+   auto-update variable without dependents, lazy and non-lazy entries; then 24 run-time operations *)
+Definition ex_setup : list op :=
+  [AllocQ 0 2; AllocU 0 1; AllocZ 1 1; AllocDV 0 7 5; AllocAutoDV 1 9 3 4; AllocCE 0 5 5; AllocCE 1 6 10;
+   AllocCEPre 0 5 10 true false false [(0,0)] []; AdvSub 0 1; AdvSub 1 1; AdvSys 1;
+   AllocCEPre 1 6 10 false true false [] [(0,1)]; AllocCEPre 1 8 9 false false true [(0,0)] [(1,2);(0,1)];
+   AdvSub 0 2; AdvSub 1 2; AdvSys 2; AdvSub 0 3; AdvSub 1 3; AdvSys 3].
+Definition ex_run : list op :=
+  [AdvSub 0 4; AdvSub 1 4; AdvSys 4; AdvSub 0 5; AdvSub 1 5; AdvSys 5; Mark (0,1); SetCE (0,1) 7; AdvSub 0 6; AdvSub 1 6; AdvSys 6; Mark (1,2);
+   Upd WU; GetCE (1,2); GetCE (0,1); SetDV (0,0) 9; AdvSub 1 6; Mark (1,2); Upd WQ; SetDVUpd (1,0) 8; MarkDVUpd (1,0); AutoUpdate; Unmark (0,1); Query].
+Example valid_iff_spec_nonvacuous :
+  let s := run cfg_now (st0 2) ex_setup in
+  wf_check s = true /\ dyn_check s = true /\ legal_run cfg_now s ex_run = true /\ legal_run cfg_fixed s ex_run = true /\
+  isUpToDate (run cfg_now s [AdvSub 0 4; AdvSub 1 4; AdvSys 4; AdvSub 0 5; AdvSub 1 5; AdvSys 5; Mark (0,1)]) (0,1) = true /\
+  isUpToDate (run cfg_now s [AdvSub 0 4; AdvSub 1 4; AdvSys 4; AdvSub 0 5; AdvSub 1 5; AdvSys 5; Mark (0,1); Upd WQ; AdvSub 0 5; AdvSub 1 5; AdvSys 5]) (0,1) = false.
+Proof. vm_compute. repeat split. Qed.
+
+(* ================================================================= the three deviations of the code as it is *)
+Definition w_auto : list op :=
+  [AllocAutoDV 0 9 5 4] ++ adv 0 1 1 ++ [AllocCEPre 0 4 10 false false false [(0,0)] []] ++ adv 0 2 4 ++
+  [SetCE (0,1) 10; Mark (0,1); SetDVUpd (0,0) 7; MarkDVUpd (0,0); AutoUpdate].
+(** DESIGN 7.8: after the auto-update the variable is 7 (was 5) with an unchanged value version, and the cache entry that
+    lists it as explicit prerequisite (computed from 5) still reads valid; the specification says invalid. *)
+Theorem valid_iff_spec_refuted_autoupdate :
+  exists l k dk, let s0 := run cfg_now (st0 1) (removelast l) in let s := run cfg_now (st0 1) l in
+    last l Query = AutoUpdate /\
+    isUpToDate s k = true /\ gvalid (grun (abs (st0 1)) l) k = false /\
+    d_val (get_dv dk s0) <> d_val (get_dv dk s) /\ d_valver (get_dv dk s0) = d_valver (get_dv dk s) /\ In dk (c_dvs (get_ce k s)).
+Proof. exists w_auto, (0,1), (0,0). vm_compute. repeat split; auto. discriminate. Qed.
+(** with the repair (patches/C18_autoupdate_notify.diff) the same sequence follows the specification *)
+Example autoupdate_fixed_agrees :
+  let s0 := run cfg_fixed (st0 1) (removelast w_auto) in let s := run cfg_fixed (st0 1) w_auto in
+  isUpToDate s (0,1) = false /\ trace cfg_fixed (st0 1) w_auto = gtrace (abs (st0 1)) w_auto /\ d_valver (get_dv (0,0) s) = S (d_valver (get_dv (0,0) s0)).
+Proof. vm_compute. repeat split. Qed.
+
+Definition w_markahead : list op := [AllocZ 0 1; AllocCE 0 7 10] ++ adv 0 1 6 ++ [Mark (0,0); Upd WZ] ++ adv 0 7 7.
+(** a lazy Dynamics entry marked at stage Velocity (accepted by markCacheValueRealized), then z changes, then Dynamics is
+    realized: the entry reads valid although it was marked before the last change of its depends-on stage *)
+Theorem valid_iff_spec_refuted_markahead :
+  exists l k, isUpToDate (run cfg_now (st0 1) l) k = true /\ gvalid (grun (abs (st0 1)) l) k = false /\
+              isUpToDate (run cfg_fixed (st0 1) l) k = true.
+Proof. exists w_markahead, (0,0). vm_compute. repeat split. Qed.
+
+Definition w_copy : list wop :=
+  map (On 0) ([AllocQ 0 1; AllocCE 0 5 10] ++ adv 0 1 5 ++ [SetCE (0,0) 10; Mark (0,0); Upd WQ]) ++ [CopyC 1 0] ++ map (On 1) (adv 0 4 5).
+(** mark at Position, updQ (entry invalid in the source), copy, realize the copy to Position: the copied entry reads valid
+    without having been recomputed, because the copy's Position stage version restarted at 1 *)
+Theorem valid_iff_spec_refuted_copy :
+  exists l k, isUpToDate (nth 1 (wrun cfg_now [st0 1; st0 1] l) (st0 0)) k = true /\
+              isUpToDate (nth 0 (wrun cfg_now [st0 1; st0 1] (l ++ map (On 0) (adv 0 5 5))) (st0 0)) k = false /\
+              gvalid (nth 1 (gwrun [abs (st0 1); abs (st0 1)] l) (mkG 0 [])) k = false.
+Proof. exists w_copy, (0,0). vm_compute. repeat split. Qed.
+(** with the repair (patches/C18_copy_stage_versions.diff) the copy follows the specification on this sequence *)
+Example copy_fixed_agrees :
+  isUpToDate (nth 1 (wrun cfg_fixed [st0 1; st0 1] w_copy) (st0 0)) (0,0) = false /\
+  map abs (wrun cfg_fixed [st0 1; st0 1] w_copy) = gwrun [abs (st0 1); abs (st0 1)] w_copy.
+Proof. vm_compute. repeat split. Qed.
+
+(* ================================================================= value versions, values *)
+(** Value versions (q, u, z, every discrete variable, every cache entry) never decrease under a run-time operation;
+    setDiscreteVariable writes the value and bumps the variable's value version by exactly one; updQ/updU/updZ/updY bump
+    exactly the versions of what they hand out (updTime none). *)
+Theorem value_versions_monotone_and_change_on_upd cf s : WF s ->
+  (forall o, runtime s o = true -> le_vals s (fst (step cf s o))) /\
+  (forall k v, runtime s (SetDV k v) = true -> has_sub s (fst k) && has_dv s k = true ->
+      d_val (get_dv k (fst (step cf s (SetDV k v)))) = v /\ d_valver (get_dv k (fst (step cf s (SetDV k v)))) = S (d_valver (get_dv k s))) /\
+  qvs (fst (step cf s (Upd WQ))) = (S (qv s), uv s, zv s) /\ qvs (fst (step cf s (Upd WU))) = (qv s, S (uv s), zv s) /\
+  qvs (fst (step cf s (Upd WZ))) = (qv s, uv s, S (zv s)) /\ qvs (fst (step cf s (Upd WY))) = (S (qv s), S (uv s), S (zv s)) /\
+  qvs (fst (step cf s (Upd WT))) = qvs s.
+Proof. intros W. split; [|split].
+  - intros o R. apply step_le_vals; auto.
+  - intros k v R H. apply step_setdv; auto.
+  - apply step_upd_versions; auto. Qed.
+
+(** Auto-update variables swap only on request: no run-time operation other than autoUpdateDiscreteVariables and
+    setDiscreteVariable of that very variable changes a discrete variable (value or value version); one auto-update turn
+    swaps variable and update value exactly when the update value is up to date, and does nothing otherwise. *)
+Theorem autoupdate_swaps_only_on_request cf s : WF s ->
+  (forall o dk, runtime s o = true -> o <> AutoUpdate -> (forall v, o <> SetDV dk v) -> get_dv dk (fst (step cf s o)) = get_dv dk s) /\
+  (forall dk cx, d_auto (get_dv dk s) = Some cx -> has_dv s dk = true -> has_ce s (fst dk, cx) = true ->
+      let s' := auto_one cf s dk in
+      (isUpToDate s (fst dk,cx) = true -> d_val (get_dv dk s') = c_val (get_ce (fst dk,cx) s) /\ c_val (get_ce (fst dk,cx) s') = d_val (get_dv dk s)) /\
+      (isUpToDate s (fst dk,cx) = false -> s' = s)).
+Proof. intros W. split.
+  - intros o dk R NA NS. apply step_dv_frame; auto.
+  - intros dk cx. apply auto_one_swap. Qed.
+
+(** Copies are independent: an operation on one State object leaves every other State object of the world unchanged
+    (the model is a value; that the implementation shares nothing is what the correspondence run compares, including
+    the untouched objects at the end of every sequence). *)
+Theorem copy_deep_independent cf w i o j : j <> i -> nth j (fst (wstep cf w (On i o))) (st0 0) = nth j w (st0 0).
+Proof. intros H. cbn [wstep]. destruct (i <? length w); auto. destruct (step cf (nth i w (st0 0)) o). cbn [fst]. unfold set_slot.
+  rewrite nth_upd_nth. replace (j =? i) with false by (symmetry; apply Nat.eqb_neq; auto). reflexivity. Qed.
+Fact copy_st_shape cf src :
+  sys_stage (copy_st cf src) = Nat.min (sys_stage src) 3 /\ nsubs (copy_st cf src) = nsubs src /\
+  forall i, i < nsubs src -> s_stage (get_sub i (copy_st cf src)) = Nat.min (s_stage (get_sub i src)) 3.
+Proof. unfold copy_st, copy_from. cbv zeta.
+  match goal with |- context [fold_left register ?l ?t] => pose proof (shape_fold register l t shape_register) as SH; set (T := t) in * end.
+  split; [|split].
+  - rewrite (shape_stage _ _ SH). reflexivity.
+  - rewrite (shape_nsubs _ _ SH). unfold nsubs, T; simpl. apply map_length.
+  - intros i Hi. destruct (shape_sub _ _ i SH) as [-> _]. unfold T, get_sub; simpl.
+    rewrite (nth_indep _ dS (copy_sub cf dS)) by (rewrite map_length; exact Hi). rewrite map_nth. reflexivity. Qed.
+
+(** a copy-constructed State leaves its source unchanged and is realized through min(stage, Instance), system and subsystems *)
+Theorem copy_stage_rule cf w d s_ : d < length w -> s_ < length w -> d <> s_ ->
+  let w' := fst (wstep cf w (CopyC d s_)) in let src := nth s_ w (st0 0) in let c := nth d w' (st0 0) in
+  nth s_ w' (st0 0) = src /\ sys_stage c = Nat.min (sys_stage src) 3 /\ nsubs c = nsubs src /\
+  forall i, i < nsubs src -> s_stage (get_sub i c) = Nat.min (s_stage (get_sub i src)) 3.
+Proof. intros Hd Hs Hn. cbn [wstep]. replace (d <? length w) with true by (symmetry; apply Nat.ltb_lt; auto).
+  replace (s_ <? length w) with true by (symmetry; apply Nat.ltb_lt; auto). cbn [andb fst]. unfold set_slot. cbv zeta.
+  rewrite !nth_upd_nth. replace (s_ =? d) with false by (symmetry; apply Nat.eqb_neq; auto). rewrite Nat.eqb_refl.
+  replace (d <? length w) with true by (symmetry; apply Nat.ltb_lt; auto). cbn [andb].
+  destruct (copy_st_shape cf (nth s_ w (st0 0))) as (A & B & C). auto. Qed.
